@@ -640,7 +640,7 @@ func writeFileReplace(path, old, new string) error {
 func runGoDir(dir string) (string, string, bool) {
 	ctx, cancel := context.WithTimeout(context.Background(), 10*time.Minute)
 	defer cancel()
-	cmd := exec.CommandContext(ctx, "go", "run", ".")
+	cmd := exec.CommandContext(ctx, "go", "run", "-gcflags=cal/...=-N -l", ".") // no inlining / dead-load elimination: the optimising compiler drops nil checks of unused operands of inlined calls
 	cmd.Dir = dir
 	cmd.Env = append(os.Environ(), "GOFLAGS=-mod=mod", "GOPROXY=off", "GOSUMDB=off", "GOTOOLCHAIN=local")
 	var so, se bytes.Buffer
